@@ -289,7 +289,7 @@ theorem lG7_stepRo (s : CS) (w : CWl) (sub : Sub) (b : CBr) (hgone : s.gone = fa
     rw [hs1]
     dsimp only
     rw [if_neg (by simp [hc]), hd]
-  have hrec := reconcile_finalising_eq (roWorld s) (roWl w) ns _ false false _ hhf hcs hp hr hwl hc hfz
+  have hrec := reconcile_finalising_eq (roWorld s) (roWl w) ns _ false false _ hhf hcs hp hr hwl hc hfz hg.notDeleting hg.enabled
   rw [if_neg (by simp), if_neg (by simp)] at hrec
   have hbr0 : (toCtx { roWorld s with ro := ns } s1 (roWl w)).br = some (roBr b) := by
     show s.br.map roBr = _
